@@ -1,3 +1,13 @@
 #!/bin/sh
-# placeholder; replaced when the engine exists
-exit 0
+# Build the verification engine, the hash-seed shim and the guarded subject,
+# offline, from files on disk only.  Output goes to /verif/.build (git-ignored).
+set -e
+cd /verif
+mkdir -p .build evidence
+export CARGO_NET_OFFLINE=true
+if [ -f shim/getrandom_shim.c ]; then
+    gcc -O2 -shared -fPIC -o .build/getrandom_shim.so shim/getrandom_shim.c -ldl
+fi
+(cd mc && cargo build --release --offline)
+(cd /repo && RUSTFLAGS='--cfg seed_verif' CARGO_TARGET_DIR=/verif/.build/subject cargo build --release --offline)
+echo "setup ok"
